@@ -288,9 +288,17 @@ def check(ctx):
                f"{ft} is not normalised (or rebound otherwise) before use")
     if ok:
         # the normalisation precedes the definition of the closures that use it and the engine call
-        line = binds[0][1].lineno
-        later = all(f.node.lineno > line for f in rr.stale_closures)
-        uses_before = [n for n in st.own_nodes() if isinstance(n, ast.Name) and n.id == ft and isinstance(n.ctx, ast.Load) and n.lineno < line]
+        # order by position in the function body (line numbers of inlined/moved code say nothing about execution order)
+        def top_index(node):
+            for i_, top in enumerate(st.node.body):
+                if top is node or any(x is node for x in ast.walk(top)):
+                    return i_
+            return -1
+        at = top_index(binds[0][1])
+        engine_calls = [c for c in st.own_calls() if rr.er.engine in m.callee_funcs(st, c)]
+        later = bool(engine_calls) and all(top_index(c) > at for c in engine_calls)
+        uses_before = [n for n in st.own_nodes() if isinstance(n, ast.Name) and n.id == ft and isinstance(n.ctx, ast.Load)
+                       and 0 <= top_index(n) < at]
         ctx.ob("C18.Z1", f"{st.short}/{ft}-normalised-first", later and not uses_before, loc(st), "normalised before any use")
     # fresh_time reaches the stale check unmodified from run
     for caller, callee in ((rr.run, rr.apply), (rr.apply, st)):
